@@ -209,8 +209,9 @@ def check_index_at_distance(prog: Program, rep, rule: str) -> bool:
     except L.Unsupported as exc:
         rep.undecided(rule, iad.where, 'index_at_distance (engine F)', f'outside the fragment: {exc}')
         return False
-    row_sc = {s_ for k_, s_ in scales if k_ == 'row'}
-    q_sc = {s_ for k_, s_ in scales if k_ == 'query'}
+    # a quantity compared as such is compared by its raw magnitude (C13.R2): 'quantity' and 'raw' are one scale
+    row_sc = {('raw' if s_ == 'quantity' else s_) for k_, s_ in scales if k_ == 'row'}
+    q_sc = {('raw' if s_ == 'quantity' else s_) for k_, s_ in scales if k_ == 'query'}
     if not row_sc or not q_sc:
         rep.undecided(rule, iad.where, 'index_at_distance (engine F)', 'the row distance / the query are not read in a spelling the rule knows')
         return False
